@@ -1,17 +1,45 @@
-"""Helpers of rules/c16.py: relation events of a function, path coverage on the statement CFG, abstract list terms.
+"""C16 - accepted mutations have exactly their documented effect and touch nothing else.   (DESIGN.md section 5, C16)
 
-Nothing here is specific to one obligation; everything works on the (mangled) ast of the analysed tree only.
+Decided structurally (clauses that are necessary for the behaviour; the spec side of every comparison is the property
+text / the docstrings' documented primitive, written down in the tables of this module):
+
+  wiring            list facades hold their owner and the owner's raw list by reference; WBS.roots is the sentinel's
+                    children facade
+  delegation.*      every facade method / operator is the documented primitive with the documented argument shape and
+                    nothing else (no other relation event in the function, effect on every accepted path)
+  setters_exact.*   children.setter clears the shared list in place, releases the old children, re-parents the given
+                    tasks in the given order; dependency setters store a copy of the given list, unlink self from the
+                    mirror list of every old element (deciding on task identity) and append self to the mirror of
+                    every new element
+  append_last       parent.setter removes from the old parent first, then appends (never inserts) to the new one
+  move_index        before -> insert(index(before), t), after -> insert(index(after) + 1, t), index taken after the
+                    removal, tasks in argument order
+  sort              one stable sorted(list, key=attribute getter, reverse=reverse), published through the setter
+  reorder           picks (first match per id, ids order) + rest (old order) built on a copy, published
+  insert_index      anchor = element `index` of the list without the task (None past the end), taken before attaching;
+                    attach; move before the anchor
+  frame             raw relation writes of every mutator only on self / argument elements / old elements / old parent /
+                    new parent, and only the documented field of each; effectful callees are mutators of the same set
+  subtree_follows   re-parenting never writes __children (or the dependency lists) of the moved task
+
+Not decided: the resulting list for all states; sort on missing / incomparable attributes; the stale `_list` snapshot
+that a second facade object keeps after sort()/reorder() rebound the owner's list through the publish callback (the
+rule only demands that children.setter itself never rebinds); duplicate ids handed to reorder (C01/C15); whether
+validation precedes mutation (C15); _attach/_detach bookkeeping beyond "only the moved subtree" (C11).
 """
 from __future__ import annotations
 
 import ast
-from typing import Dict, List, Optional, Set, Tuple
 
-from sa.cfg import cfg_of, Node
-from sa.flow import flow_of, Expander
-from sa.model import Func, walk_no_nested, src, unmangle
-from sa.pat import same, attr_path
 from sa import facts
+from sa.cfg import cfg_of
+from sa.effects import Effects
+from sa.flow import flow_of, Expander
+from sa.model import walk_no_nested, src, unmangle
+from sa.pat import match, same
+from typing import Dict, List, Optional, Set, Tuple
+from sa.cfg import Node
+from sa.model import Func
 
 REL_FIELDS = {'_Task__parent', '_Task__children', '_Task__predecessors', '_Task__successors', '_Task__wbs', '_list'}
 REL_PROPS = {'parent', 'children', 'predecessors', 'successors', 'roots'}
@@ -330,3 +358,99 @@ def const_of(e: ast.AST):
 
 def names_in(e: ast.AST) -> Set[str]:
     return {n.id for n in ast.walk(e) if isinstance(n, ast.Name)}
+
+
+# ---------------------------------------------------------------------------------------------------------------------
+LIST = '_list'
+# documented relation edited by each facade class / operator (property text, docstrings)
+LINK_FACADES = {'_PredecessorsList': 'predecessors', '_SuccessorsList': 'successors'}
+TASK_OPERATORS = {'__floordiv__': 'children', '__lshift__': 'predecessors', '__rshift__': 'successors'}
+LIST_OPERATORS = {'__lshift__': 'predecessors', '__rshift__': 'successors'}
+DEP = {'predecessors': ('_Task__predecessors', '_Task__successors'),
+       'successors': ('_Task__successors', '_Task__predecessors')}
+ROOT = '_WBS__root'
+
+
+class A:
+    """per run analysis state"""
+
+    def __init__(self, ctx):
+        self.ctx = ctx
+        self.prog = ctx.prog
+        self.cg = ctx.cg
+        self.typer = ctx.typer
+        self.eff = Effects(ctx.prog, ctx.typer, ctx.cg)
+        self._x = {}
+        self._ev = {}
+        self.owner_attr = {}
+
+    def X(self, f) -> Expander:
+        if f.qual not in self._x:
+            self._x[f.qual] = Expander(self.prog, f, self.typer)
+        return self._x[f.qual]
+
+    def xp(self, f, e, at=None):
+        return self.X(f).expand(e, at)
+
+    def events(self, f):
+        if f.qual not in self._ev:
+            self._ev[f.qual] = events(self, f)
+        return self._ev[f.qual]
+
+    def fn(self, q):
+        return self.prog.func(q)
+
+    # ------------------------------------------------------------ small recognisers
+    def is_self(self, f, e):
+        return isinstance(e, ast.Name) and e.id == f.self_name
+
+    def is_self_attr(self, f, e, attr):
+        return isinstance(e, ast.Attribute) and e.attr == attr and self.is_self(f, e.value)
+
+    def is_owner(self, f, e):
+        """`self.<owner field>` inside a facade class"""
+        oa = self.owner_attr.get(f.cls)
+        return oa is not None and self.is_self_attr(f, e, oa)
+
+    def is_param(self, f, e, i):
+        return isinstance(e, ast.Name) and len(f.params) > i and e.id == f.params[i]
+
+    def leftovers(self, o, f, what):
+        """every relation event of f that no clause recognised contradicts `touches nothing else`"""
+        n = 0
+        for ev in self.events(f):
+            if not ev.used:
+                n += 1
+                o.refute(f, ev.node, ev.node, f"{what}: additional relation effect `{src(ev.node)[:80]}` next to the "
+                                              f"documented one")
+        return n
+
+    def must_pass(self, o, f, evs, noop_nodes, what):
+        """every accepted path (entry to a normal exit) meets one of the events, except the documented no-op exits"""
+        cfg = cfg_of(f)
+        cov = covered(cfg, [e.cn for e in evs])
+        cov |= {n.id for n in noop_nodes if n is not None}
+        if escaping_path(cfg, cov):
+            o.refute(f, f.node, what, f"{what}: some accepted path returns without performing the documented effect "
+                                      f"(the effect is conditional or skipped)")
+            return False
+        return True
+
+
+def check(ctx):
+    a = A(ctx)
+    ctx.assume("Task defines no __eq__/__hash__: == and `in` on tasks decide object identity")
+    ctx.assume("term expansion assumes no aliasing writes between a definition and its use inside one function")
+    for part in PARTS:
+        part(a, ctx)
+
+
+PARTS = []
+
+
+def part(fn):
+    PARTS.append(fn)
+    return fn
+
+
+# @@SECTIONS@@
